@@ -368,7 +368,9 @@ func geomOracle(d desc, p prim) string {
 	if math.Abs(got-want) > 1e-9*want {
 		return fmt.Sprintf("signed volume %.17g differs from the inscribed polyhedron's volume %.17g", got, want)
 	}
-	if an := analyticVolume(d); got > an*(1+1e-12) {
+	// (boxes: inscribed = analytic, already compared above at 1e-9; the 1e-12 margin is for the round solids, whose
+	// inscribed polyhedron stays O(1/n^2) below the analytic volume)
+	if an := analyticVolume(d); d.Fam != "cubeW" && d.Fam != "cubeQ" && got > an*(1+1e-12) {
 		return fmt.Sprintf("volume %.17g exceeds the analytic volume %.17g", got, an)
 	}
 	return facesOracle(d, p, interiorPoint(d), sizeScale(d))
